@@ -40,8 +40,8 @@ PROPS = {
                 "load-or-create with data written before the reopen); outcomes, the loaded configuration field by "
                 "field, and the manifest text (length+CRC-32, scratch root replaced by $R) are compared with the "
                 "extracted Config model; oracle = documented constraints table, save/load equality, nothing written "
-                "on rejection, every strict prefix fails, open fails on an unreadable manifest and otherwise uses the "
-                "stored WAL directory with earlier data readable; non-trivial = a successful save followed by a "
+                "on rejection, every strict prefix fails, open fails on an unreadable manifest or on a missing one over "
+                "existing files and otherwise uses the stored WAL directory with earlier data readable; non-trivial = a successful save followed by a "
                 "load, or a rejected save, or a tampering step, or an engine open; distinct by case text",
         "assumptions": ["compaction_ratio is modelled as the exact decimal of the float64's shortest representation: "
                         "strconv.FormatFloat(f,-1)/ParseFloat agree with decimal arithmetic on such values (Go's "
